@@ -76,7 +76,7 @@ OptBeh == [t |-> "opt", ops |-> hist]
 (* ------------------------------ output --------------------------------- *)
 LastOf(h) == IF h = <<>> THEN <<>> ELSE h[Len(h)]
 View == <<Len(hist), LastOf(hist), impl, prop, last>>
-OptView == <<LastOf(hist), impl, prop, last>>     \* shortest path to every (state, operation)
+OptView == View      \* (the length must be part of a VIEW under a length bound, or the set explored depends on the schedule)
 
 Terminal == Len(hist) = MaxLen \/ last.reason # ""
 \* ExportEvery: one BEH per state (use with VIEW).  Otherwise all sequences of length MaxLen: printing is the
